@@ -2,7 +2,8 @@
 C04 — Uncompressed, packed, sub-sampled and planar formats decode to the ideal values.
 
 Only property theorems and non-vacuity examples live here; the complete-evaluation lemmas are in
-`Proofs/ConvInt*.lean`, `Proofs/ConvFloat*.lean`, the list lemmas in `Proofs/Pairing.lean`.
+`Proofs/ConvInt*.lean`, `Proofs/ConvFloat*.lean`, `Proofs/ConvF16*.lean` (16-bit → F32 and half floats, on the
+integer representation of the software float of `Proofs/ConvFast*.lean`), the list lemmas in `Proofs/Pairing.lean`.
 
 Reading of the statements.  `Conv.*` are the implementation-shaped models of `color/formats.rs`
 (integer code on `Nat` with the wrapping steps written out; `f32` code operator by operator on the
@@ -18,6 +19,7 @@ import DdsModel.Proofs.ConvInt16B
 import DdsModel.Proofs.ConvInt16C
 import DdsModel.Proofs.ConvFloat
 import DdsModel.Proofs.ConvShared
+import DdsModel.Proofs.ConvF16All
 import DdsModel.Proofs.Pairing
 import DdsModel.Proofs.FieldsWF
 import DdsModel.Drv.C04
@@ -176,10 +178,72 @@ theorem xr10f32_exact : ∀ x, x < 1024 → xr10f32 x = roundF32 (xr x) := fun x
 /-- the former formula (multiplication by the rounded reciprocal) was not: field value 0 -/
 theorem xr10f32_reciprocal_not_nearest : xr10f32Reciprocal 0 ≠ roundF32 (xr 0) := by decide +kernel
 
-/- `n16::f32`, `s16::uf32`, `fp16::f32/n8/n16` (65 536-point domains of software-float evaluation,
-≈ 12 ms per point in the kernel) are NOT proved here; they are covered by the exhaustive tie
-(R16_UNORM, R16_SNORM, R16_FLOAT: all 65 536 values × three precisions on every run, the oracle
-demanding the correctly rounded f32 / the nearest code).  -/
+/-! ### 16-bit UNORM / SNORM → F32 and the half-float conversions, whole 16-bit domains
+
+All 65 536 inputs of each conversion are evaluated in the kernel (`decide +kernel`, kernel reduction only).  The
+software binary32 of `ConvF32.lean` costs ≈ 12 ms per conversion there, so the evaluation runs on an integer
+representation of the same float (`Proofs/ConvFast.lean`: biased natural exponents, kernel-accelerated `Nat`
+primitives only) that is PROVED equal to the model's `roundPack`, `fmul`, `fadd`, `ofNat`, `toNatSat` for all
+arguments; likewise `roundF32 (N/D)` and `toCode max (N/D)` of the specification (`Proofs/ConvFastSpec.lean`).
+The domains are split over twelve files `Proofs/ConvF16Rows*.lean` that build in parallel. -/
+
+/-- `n16::f32` (`t*C0 + t*C1`, two products and a sum in `f32`) is the correctly rounded `v / 65535` -/
+theorem n16_f32_eq_spec : ∀ v, v < 65536 → n16f32 v = roundF32 (unorm 16 v) := Dds.ConvFast.n16f32_all
+
+/-- `s16::uf32` (SNORM16 mapped to [0, 1], `(n as f32 * 73.0) * (1/(65534*73))` with `n = s16::norm`) is the
+correctly rounded ideal value `(max(s, −32767)/32767 + 1)/2` -/
+theorem s16_uf32_eq_spec : ∀ v, v < 65536 → s16f32 v = roundF32 (snorm 16 v) := Dds.ConvFast.s16f32_all
+
+/-- both minimum codes (−32768 and −32767) give 0.0, code 0 gives 0.5, the maximum 1.0 -/
+theorem s16_uf32_anchors : s16f32 32768 = 0 ∧ s16f32 32769 = 0 ∧ s16f32 0 = half ∧ s16f32 32767 = one := by
+  decide +kernel
+
+/-- `fp16::f32`, every half bit pattern: a finite half (normal or subnormal) gives the binary32 of exactly its
+value (`roundF32` of a representable value; a zero keeps its sign), `±∞` gives `±∞`, a NaN gives a NaN -/
+theorem fp16_f32_eq_spec : ∀ x, x < 65536 →
+    match smallFloat 10 true x with
+    | some v => smallF32 10 true x = if v = 0 then (if x < 32768 then 0 else signBit) else roundF32 v
+    | none => if x % 1024 = 0 then smallF32 10 true x = (if x < 32768 then posInf else negInf)
+        else isNaN (smallF32 10 true x) = true :=
+  Dds.ConvFast.half_f32_all
+
+/-- `fp16::n8`, every half bit pattern: the nearest 8-bit code of the value clamped to [0, 1] (tie up);
+`+∞` gives 255, `−∞` and NaN give 0 -/
+theorem fp16_n8_eq_spec : ∀ x, x < 65536 →
+    (smallN8 10 true x : Int) = match smallFloat 10 true x with
+      | some v => toCode 255 v
+      | none => if x % 1024 = 0 ∧ x < 32768 then 255 else 0 :=
+  Dds.ConvFast.half_n8_all
+
+/-- `fp16::n16`, every half bit pattern EXCEPT the four halves `0x3801 … 0x3804` (0.5·(1 + k/1024), k = 1…4):
+the nearest 16-bit code of the value clamped to [0, 1] (tie up); `+∞` gives 65535, `−∞` and NaN give 0.
+`_partial`: the property demands the nearest code for every half; for the four excluded ones the code is one too
+high (`fp16_n16_known_deviation`, finding F14b), so the exception set is exact. -/
+theorem fp16_n16_eq_spec_partial : ∀ x, x < 65536 → ¬ (0x3801 ≤ x ∧ x ≤ 0x3804) →
+    (smallN16 10 true x : Int) = match smallFloat 10 true x with
+      | some v => toCode 65535 v
+      | none => if x % 1024 = 0 ∧ x < 32768 then 65535 else 0 := by
+  intro x hx hne
+  have h := Dds.ConvFast.half_n16_all x hx
+  have hne' : ¬ (14337 ≤ x ∧ x ≤ 14340) := hne
+  rw [h]
+  cases smallFloat 10 true x with
+  | none => rfl
+  | some v => simp only [if_neg hne', Int.add_zero]
+
+/-- the four halves really deviate: the `f32` product `v * 65535.0` needs 25 bits, rounds onto the tie
+`c + 0.5` and the code comes out ONE TOO HIGH (32800, 32832, 32864, 32896 instead of 32799, 32831, 32863,
+32895); each ideal is within 2^-9 code of the tie, inside the stated tie tolerance (`admissible`) -/
+theorem fp16_n16_known_deviation : ∀ x, 0x3801 ≤ x → x ≤ 0x3804 →
+    ∃ v, smallFloat 10 true x = some v ∧ (smallN16 10 true x : Int) = toCode 65535 v + 1 ∧
+      admissible 65535 v (smallN16 10 true x) = true := by
+  intro x h1 h2
+  have : x = 14337 ∨ x = 14338 ∨ x = 14339 ∨ x = 14340 := by omega
+  rcases this with rfl | rfl | rfl | rfl
+  · exact ⟨(smallFloat 10 true 14337).getD 0, by decide +kernel, by decide +kernel, by decide +kernel⟩
+  · exact ⟨(smallFloat 10 true 14338).getD 0, by decide +kernel, by decide +kernel, by decide +kernel⟩
+  · exact ⟨(smallFloat 10 true 14339).getD 0, by decide +kernel, by decide +kernel, by decide +kernel⟩
+  · exact ⟨(smallFloat 10 true 14340).getD 0, by decide +kernel, by decide +kernel, by decide +kernel⟩
 
 /-! ### 11-bit, 10-bit floats and the shared-exponent format: all outputs, whole domain -/
 
@@ -254,6 +318,15 @@ example : roundF32 1 = 0x3F800000 ∧ roundF32 (1 / 3) = 0x3EAAAAAB ∧ roundF32
     roundF32 16777217 = 0x4B800000 ∧ roundF32 16777219 = 0x4B800002 ∧
     roundF32 (1 / 2 ^ 149) = 1 ∧ roundF32 (1 / 2 ^ 150) = 0 ∧ roundF32 (2 ^ 128) = 0x7F800000 := by
   decide +kernel
+example : n16f32 65535 = one ∧ n16f32 1 = roundF32 (1 / 65535) ∧ unorm 16 32768 = 32768 / 65535 := by decide +kernel
+example : snorm 16 32768 = 0 ∧ snorm 16 65535 = 16383 / 32767 ∧ s16f32 65535 = roundF32 (16383 / 32767) := by
+  decide +kernel
+example : smallFloat 10 true 0x3C00 = some 1 ∧ smallF32 10 true 0x3C00 = one ∧ smallN8 10 true 0x3C00 = 255 ∧
+    smallFloat 10 true 0x0001 = some (1 / 16777216) ∧ smallF32 10 true 0x0001 = 0x33800000 ∧
+    smallFloat 10 true 0xC000 = some (-2) ∧ smallF32 10 true 0xC000 = 0xC0000000 ∧ smallN16 10 true 0xC000 = 0 ∧
+    smallFloat 10 true 0x7C00 = none ∧ smallF32 10 true 0xFC00 = negInf ∧ smallN16 10 true 0x7C00 = 65535 ∧
+    smallF32 10 true 0x8000 = signBit ∧ smallFloat 10 true 0x3801 = some (1025 / 2048) ∧
+    smallN16 10 true 0x3801 = 32800 ∧ toCode 65535 (1025 / 2048) = 32799 := by decide +kernel
 example : process2x1 (fun i => (2 * i, 2 * i + 1)) 5 = [0, 1, 2, 3, 4] := by decide
 example : biPlanarRows (fun y uv => (y, uv)) 3 2 = [(0, 0), (1, 0), (2, 1)] := by decide
 example : (findFmt "NV12").isSome = true := by decide
